@@ -177,8 +177,54 @@ func ruleCutCheck(c *Ctx) {
 				edge := funcDisplay(f) + "→" + funcDisplay(g)
 				ord[edge]++
 				key := fmt.Sprintf("%s#%d", edge, ord[edge])
-				if !fam.members[f] || !fam.members[g] || parents == nil {
+				fCar, gCar := c.carrierOf(fam, f), c.carrierOf(fam, g)
+				if !(fam.members[f] && parents != nil || fCar != nil) || !(fam.members[g] || gCar != nil) {
 					c.ob(rule, key, call.Pos(), false, "recursion outside the expander family: no cycle cut is known for it")
+					return true
+				}
+				if fCar != nil || gCar != nil {
+					// an edge through a parameter object (a small struct carrying loader, base path and parent stack):
+					// only structural descent is understood here; the stack must travel unchanged through the struct
+					desc := false
+					if len(call.Args) > 0 {
+						for _, o := range oc.origins(call.Args[0], 0) {
+							if o.root == elemParam && len(o.steps) > 0 {
+								desc = true
+							}
+						}
+					}
+					// the stack handed on
+					var handed ast.Expr
+					if gCar != nil {
+						if se, ok := unparen(call.Fun).(*ast.SelectorExpr); ok {
+							handed = c.carrierFieldValue(fd, se.X, gCar.parents)
+						}
+					} else {
+						handed = c.argFor(call, isStringSlice)
+					}
+					unchanged := false
+					if handed != nil {
+						if fCar != nil {
+							if hs, ok := unparen(handed).(*ast.SelectorExpr); ok {
+								if id, ok := unparen(hs.X).(*ast.Ident); ok && c.objOf(id) == c.recvObj(fd) && c.fieldOfSel(hs) == fCar.parents && !c.fieldAssignedIn(fd, fCar.parents) {
+									unchanged = true
+								}
+							}
+						} else if id, ok := unparen(handed).(*ast.Ident); ok && c.objOf(id) == parents {
+							unchanged = true
+							for _, d := range defs[parents] {
+								if d != nil && d.Pos() < call.Pos() {
+									unchanged = false
+								}
+							}
+						}
+					}
+					nDesc++
+					c.ob(rule, key+":stack-unchanged", call.Pos(), desc && unchanged,
+						"a recursive call through a parameter object must descend into the schema and carry the parent-ref stack unchanged (field set once from the caller's stack, never re-assigned)")
+					if !desc {
+						same[f] = append(same[f], g)
+					}
 					return true
 				}
 				// classification
@@ -305,6 +351,92 @@ func ruleCutCheck(c *Ctx) {
 			}
 		}
 		c.ob(rule, "scc("+sccName+"):progress", token.NoPos, !bad, "the recursion contains a cycle whose calls neither descend into the schema nor follow a guarded reference")
+	}
+	// reference-following LOOPS: a tail recursion written as `for { ...follow...; parents = append(parents, k) }`
+	for _, f := range fam.order {
+		fd := c.decl(f)
+		parents := c.stringSliceParam(fd)
+		if parents == nil {
+			continue
+		}
+		defs := c.localDefs(fd)
+		fn := c.funcName(fd)
+		nloop := 0
+		ast.Inspect(fd.Body, func(n ast.Node) bool {
+			loop, ok := n.(*ast.ForStmt)
+			if !ok {
+				return true
+			}
+			var fcall *ast.CallExpr
+			ast.Inspect(loop.Body, func(m ast.Node) bool {
+				if cc, ok := m.(*ast.CallExpr); ok && follows(cc) && fcall == nil {
+					fcall = cc
+				}
+				return true
+			})
+			if fcall == nil {
+				return true
+			}
+			// a loop that can leave only by return (no condition): every iteration follows one reference
+			nloop++
+			nRef++
+			c.saw(fn)
+			key := fmt.Sprintf("%s:follow-loop#%d", fn, nloop)
+			var k types.Object
+			cut := false
+			for _, cl := range c.literalsAt(fd, fcall) {
+				cc, ok := unparen(cl.e).(*ast.CallExpr)
+				if !ok || !isCircularCall(cc) || !cl.neg || len(cc.Args) < 3 {
+					continue
+				}
+				if id, ok := unparen(cc.Args[0]).(*ast.Ident); ok {
+					k = c.objOf(id)
+				}
+				last, _ := unparen(cc.Args[len(cc.Args)-1]).(*ast.Ident)
+				if cc.Ellipsis.IsValid() && last != nil && c.objOf(last) == parents && cc.Pos() > loop.Body.Pos() {
+					cut = true
+				}
+			}
+			c.ob(rule, key+":cut", fcall.Pos(), cut && k != nil,
+				"a $ref is followed inside a loop without the cycle test isCircular(ref, base, parentRefs...) having returned false in the same iteration: a cyclic reference chain loops without bound")
+			ext := false
+			if k != nil {
+				ast.Inspect(loop.Body, func(m ast.Node) bool {
+					as, ok := m.(*ast.AssignStmt)
+					if !ok || as.Pos() < fcall.End() || len(as.Lhs) != 1 || len(as.Rhs) != 1 {
+						return true
+					}
+					lid, ok := unparen(as.Lhs[0]).(*ast.Ident)
+					if !ok || c.objOf(lid) != parents {
+						return true
+					}
+					if ap, ok := unparen(as.Rhs[0]).(*ast.CallExpr); ok && c.isBuiltin(ap, "append") && len(ap.Args) == 2 {
+						a0, _ := unparen(ap.Args[0]).(*ast.Ident)
+						if sc, ok := unparen(ap.Args[1]).(*ast.CallExpr); ok && a0 != nil && c.objOf(a0) == parents {
+							if se, ok := unparen(sc.Fun).(*ast.SelectorExpr); ok && se.Sel.Name == "String" {
+								if kid, ok := unparen(se.X).(*ast.Ident); ok && c.objOf(kid) == k {
+									ext = true
+								}
+							}
+						}
+					}
+					return true
+				})
+			}
+			c.ob(rule, key+":push", fcall.Pos(), ext,
+				"every iteration must extend the parent stack with k.String() for the very reference k tested by isCircular; otherwise the cut never fires")
+			if k != nil {
+				norm := len(defs[k]) > 0
+				for _, d := range defs[k] {
+					cc, ok := unparen(d).(*ast.CallExpr)
+					if !ok || !c.isSpecFunc(cc, "normalizeRef") {
+						norm = false
+					}
+				}
+				c.ob(rule, key+":canonical-key", fcall.Pos(), norm, "the reference tested and pushed must be the normalised (canonical absolute) form")
+			}
+			return true
+		})
 	}
 	c.note("cut-check: %d reference-following and %d structural recursive call sites", nRef, nDesc)
 	if nRef < 2 {
@@ -1227,4 +1359,95 @@ func (c *Ctx) structMapFieldAlwaysMade(f *types.Var) bool {
 		})
 	}
 	return ok && lits > 0
+}
+
+// carrier: an unexported struct type that carries the expander's travelling arguments - a loader, a base path and
+// the parent-ref stack - and a method of it.
+type carrierInfo struct {
+	typ     *types.Named
+	parents *types.Var
+}
+
+func (c *Ctx) carrierOf(fam *expFamily, f *types.Func) *carrierInfo {
+	sig := f.Type().(*types.Signature)
+	if sig.Recv() == nil {
+		return nil
+	}
+	n, ok := types.Unalias(derefType(sig.Recv().Type())).(*types.Named)
+	if !ok || n.Obj().Pkg() != c.Types || n.Obj().Exported() || n == fam.loader {
+		return nil
+	}
+	st, ok := n.Underlying().(*types.Struct)
+	if !ok {
+		return nil
+	}
+	var parents *types.Var
+	hasLoader, hasBase := false, false
+	for i := 0; i < st.NumFields(); i++ {
+		ft := st.Field(i).Type()
+		switch {
+		case isNamed(derefType(ft), c.Types, fam.loader.Obj().Name()):
+			hasLoader = true
+		case isStringType(ft):
+			hasBase = true
+		case isStringSlice(ft):
+			parents = st.Field(i)
+		}
+	}
+	if !hasLoader || !hasBase || parents == nil {
+		return nil
+	}
+	return &carrierInfo{typ: n, parents: parents}
+}
+
+// carrierFieldValue: e is a local variable built once by a composite literal of a carrier type (or that literal):
+// returns the expression its field f was given.
+func (c *Ctx) carrierFieldValue(fd *ast.FuncDecl, e ast.Expr, f *types.Var) ast.Expr {
+	e = unparen(e)
+	if id, ok := e.(*ast.Ident); ok {
+		ds := c.localDefs(fd)[c.objOf(id)]
+		if len(ds) != 1 || ds[0] == nil {
+			return nil
+		}
+		e = unparen(ds[0])
+	}
+	if u, ok := e.(*ast.UnaryExpr); ok && u.Op == token.AND {
+		e = unparen(u.X)
+	}
+	lit, ok := e.(*ast.CompositeLit)
+	if !ok {
+		return nil
+	}
+	st, ok := derefType(c.typeOf(lit)).Underlying().(*types.Struct)
+	if !ok {
+		return nil
+	}
+	for i, el := range lit.Elts {
+		if kv, isKV := el.(*ast.KeyValueExpr); isKV {
+			if id, isId := kv.Key.(*ast.Ident); isId && id.Name == f.Name() {
+				return kv.Value
+			}
+			continue
+		}
+		if i < st.NumFields() && st.Field(i) == f {
+			return el
+		}
+	}
+	return nil
+}
+
+// fieldAssignedIn: some statement of the function assigns the field (through any holder).
+func (c *Ctx) fieldAssignedIn(fd *ast.FuncDecl, f *types.Var) bool {
+	found := false
+	ast.Inspect(fd.Body, func(n ast.Node) bool {
+		if as, ok := n.(*ast.AssignStmt); ok {
+			for _, l := range as.Lhs {
+				if c.fieldOfSel(l) == f {
+					found = true
+				}
+			}
+		}
+		return true
+	})
+	return found
 }
